@@ -53,7 +53,8 @@ def body(c):
              "store_keys": [tab[i - 1].decode("latin-1") for i in keys_], "key_table": [k.decode("latin-1") for k in tab]})
         for conf in pconfs:
             K.replay(c, g, conf, c.seed, name, keys=tab, mode="store", nproc=vlib.NCPU, collect=stats, timeout=6000)
-        total_runs += q_here * len(g[0]["pl"]) * len(pconfs)
+        # the empty store is built once (its placements are all the same)
+        total_runs += sum(len(r["q"]) * (len(x["pl"]) if x["store"] else 1) for x in g for r in x["runs"]) * len(pconfs)
         if not groups:
             groups, nq, npl, confs = g, q_here, len(g[0]["pl"]), pconfs
         else:
